@@ -13,6 +13,14 @@
      corners                                 the four corners of the coordinate grid get_crop_inputs returned, <<top-left, top-right,
                                              bottom-left, bottom-right>>, each <<x, y>> in 1/16 px; <<>> when it raised / was not seen
 
+     env, hk, call, hafter                   round 9 (information for the report, not read by the clauses): numeric environment of the
+                                             host process during the call ("default" | "fperr" = np.seterr(all = "raise") | "warnerr" =
+                                             warnings as errors; the strict ones are recorded for spaces of degenerate lines only, Env =
+                                             "strict", where the clause "never an exception, configured height" is all that is claimed),
+                                             container type of the heights, number of the crop of the SAME line (repeat sessions: the caller
+                                             keeps the heights object / TextLine and crops again; asc, desc stay the line's heights as the
+                                             caller set them, ref = the first crop of the line), the heights the caller holds afterwards
+
    Besides the configurations TLC enumerates (Cropper!Init) the driver records SESSIONS: sampled baselines - among them dense ones
    of 65 .. some thousand points, far beyond the 2..5 points of the enumerated spaces - cropped by long-lived cropper objects of
    several configurations one after the other (also right after a call that fails).  Nothing of their verdict is computed in
@@ -80,6 +88,18 @@ EndOK(e, P) == LET ddx == e[1] - 16 * P[1]
                   /\ Abs(ddx * DX + ddy * DY) <= 16 * EndTol * (Chord + 1)
 EndsClause == /\ EndOK(BaseAt(Tr.corners[1], Tr.corners[3]), First)
               /\ EndOK(BaseAt(Tr.corners[2], Tr.corners[4]), Last)
+(* "rows run linearly from the ascender height above the baseline (first row) to the descender height below it (last row),
+   perpendicular to it", heights scaled by LINE_SCALE: the first and the last row of the coordinate grid are (asc + desc) * sc / 10 px
+   apart, at the first and at the last column (unit normals: exact in the code up to float32 round-off ~1e-3 px; the recorded corners
+   are rounded to 1/16 px).  Tolerance BandTol = 1 px.  asc / desc are the heights of the LINE as the caller set them: a line that is
+   cropped a second time (repeat sessions) must again be sampled over that band.  Corners more than 1000 px apart fail outright
+   (keeps the squares below 2^31).                                                                                             *)
+BandTol == 1
+BandOK(t, b) == LET ddx == t[1] - b[1]
+                    ddy == t[2] - b[2]
+                IN /\ Abs(ddx) <= 16 * 1000 /\ Abs(ddy) <= 16 * 1000
+                   /\ Abs(10 * Isqrt(ddx * ddx + ddy * ddy) - 16 * HS * sc) <= 10 * 16 * BandTol + 10
+BandClause == BandOK(Tr.corners[1], Tr.corners[3]) /\ BandOK(Tr.corners[2], Tr.corners[4])
 \* detailed grid model
 ExactWidth == W \in Widths
 ExactPath == IF NeedsGeneral THEN Tr.ev.path = "general" ELSE (Tr.ev.path = "fast" \/ Touches)
@@ -96,6 +116,7 @@ FirstFailing ==
     ELSE IF HasPx /\ kind' = "real" /\ IsGrid /\ ~Degenerate /\ page.kind = "cols" /\ ~ColsClause(IdealXNum, 2) THEN 5
     ELSE IF HasPx /\ HasRef /\ ~RefClause THEN 6
     ELSE IF HasCorners /\ kind' = "real" /\ ~Degenerate /\ ~EndsClause THEN 11   \* band starts / ends at the first / last point
+    ELSE IF HasCorners /\ kind' = "real" /\ ~Degenerate /\ ~BandClause THEN 12   \* band is (asc + desc) * scale high
     ELSE IF Level = "exact" /\ kind' = "real" /\ IsGrid /\ ~Degenerate /\ ~ExactWidth THEN 7
     ELSE IF Level = "exact" /\ kind' = "real" /\ IsGrid /\ ~Degenerate /\ ~ExactPath THEN 8
     ELSE IF Level = "exact" /\ HasPx /\ kind' = "real" /\ IsGrid /\ ~Degenerate /\ ~ExactOutside THEN 9
